@@ -20,6 +20,19 @@ def gen_recovery_facts():
         act = "locate" if any(c.endswith("async_locate_spas") for c in calls) else ("connect" if any(c.endswith("async_connect") for c in calls) else None)
         if act:
             guards.append((act, _states_in(n.test), ast.unparse(n.test)))
+    # a third rule: a state from which the pump RESETS after a pause (so that the next turn locates again)
+    retry_states = []
+    for n in ifs:
+        calls = [_dotted(c.func) or "" for c in ast.walk(n) if isinstance(c, ast.Call)]
+        if any(c.endswith("async_reset") for c in calls) and not any(c.endswith("async_locate_spas") or c.endswith("async_connect") for c in calls):
+            if "self._spa_identifier is not None" not in ast.unparse(n.test):
+                continue
+            inner = [m for m in ast.walk(n) if isinstance(m, ast.If) and m is not n and any((_dotted(c.func) or "").endswith("async_reset")
+                                                                                          for c in ast.walk(m) if isinstance(c, ast.Call))]
+            # the reset must be guarded by a re-check of the same states after the pause (the state may have changed meanwhile)
+            if len(inner) != 1 or _states_in(inner[0].test) != _states_in(n.test):
+                raise Untranslatable("_sequence_pump: retry rule does not re-check its state after the pause")
+            retry_states = _states_in(n.test)
     if sorted(g[0] for g in guards) != ["connect", "locate"]:
         raise Untranslatable("_sequence_pump: expected one locate guard and one connect guard")
     loc = [g for g in guards if g[0] == "locate"][0]
@@ -75,6 +88,7 @@ def gen_recovery_facts():
     out = [T.HEADER, "namespace GeckoModel.Generated\n",
            f"/-- _sequence_pump locates when the state is one of these (and there are no descriptors) -/\ndef pumpLocateStates : List String := {lst(loc[1])}",
            f"/-- _sequence_pump connects when the state is one of these (identifier configured, no facade) -/\ndef pumpConnectStates : List String := {lst(con[1])}",
+           f"/-- _sequence_pump resets (after a pause) when the state is one of these: the next turn searches again -/\ndef pumpRetryStates : List String := {lst(retry_states)}",
            f"/-- a received ping resets the manager when the state is one of these -/\ndef pingResetStates : List String := {lst(reset_states)}",
            f"def stateOnSpaNotFound : String := {T.lstr(target_of('SPA_NOT_FOUND'))}",
            f"def stateOnPingNoResponse : String := {T.lstr(target_of('RUNNING_PING_NO_RESPONSE'))}",
